@@ -415,11 +415,21 @@ func cmdRelay(args []string) error {
 			for len(line.InGot) < nin {
 				ev := <-evIn
 				line.InGot = append(line.InGot, toInts(ev))
+				// a device that reads late now and then: the queues of the input direction back up
+				if len(line.InGot)%11 == 0 {
+					time.Sleep(300 * time.Microsecond)
+				}
 			}
 			close(ingot)
 		}()
 		for i := 0; i < nin; i++ {
 			msg := []byte{0x90 | byte(i%16), byte(i % 128), byte(i / 128)}
+			switch i % 6 {
+			case 3: // system real-time, one byte: clock / start / continue / stop / active sensing
+				msg = []byte{[]byte{0xF8, 0xFA, 0xFB, 0xFC, 0xFE}[(i/6)%5]}
+			case 5: // two bytes: program change, channel pressure
+				msg = []byte{[]byte{0xC0, 0xD0}[(i/6)%2] | byte(i%16), byte(i % 128)}
+			}
 			line.InSent = append(line.InSent, toInts(msg))
 			inp.ch <- msg
 		}
